@@ -2,6 +2,7 @@ package main
 
 import (
 	"context"
+	"crypto/tls"
 	"fmt"
 	"reflect"
 	"strings"
@@ -11,9 +12,11 @@ import (
 
 	"github.com/ansible/receptor/pkg/netceptor"
 	"github.com/ansible/receptor/pkg/utils"
+	"github.com/quic-go/quic-go"
 )
 
 var scenarioNames = []string{
+	"raw-quic-clients", // takes a minute: started first
 	"double-close-advertised-socket",
 	"double-close-advertised-listener",
 	"two-waiting-deliverers",
@@ -438,6 +441,170 @@ func scenarioMain(args []string) {
 		case <-time.After(5 * time.Second):
 			res.violate("Listener.Close() did not return within 5s", "hang:listener-close", nil)
 		}
+	case "raw-quic-clients":
+		// QUIC clients that are not DialContext: a wrong or missing marker byte, no stream at all
+		// until the listener is closed, and no stream at all for longer than the 60 s the accept
+		// loop waits for one.  Whatever they do, the goroutine that waits for their stream must end
+		// and nothing may stay behind.
+		st, _ := fastTLS()
+		pending := pkgPrefix + "netceptor.(*Listener).acceptLoop"
+		rawDial := func(svc string, keepAlive bool) (quic.Connection, netceptor.PacketConner, error) {
+			pc, err := a.ListenPacket("")
+			if err != nil {
+				return nil, nil, err
+			}
+			cfg := &quic.Config{HandshakeIdleTimeout: 15 * time.Second, MaxIdleTimeout: 30 * time.Second}
+			if keepAlive {
+				cfg.KeepAlivePeriod = 5 * time.Second
+			}
+			tr := &quic.Transport{Conn: pc}
+			ctx, cancel := context.WithTimeout(context.Background(), 10*time.Second)
+			defer cancel()
+			qc, err := tr.Dial(ctx, a.NewAddr("beta", svc), &tls.Config{InsecureSkipVerify: true, NextProtos: []string{"netceptor"}, MinVersion: tls.VersionTLS12}, cfg) //nolint:gosec
+			if err != nil {
+				_ = pc.Close()
+			}
+			return qc, pc, err
+		}
+		listen := func(svc string) (*netceptor.Listener, chan error) {
+			li, err := b.Listen(svc, st)
+			Must(err)
+			errs := make(chan error, 16)
+			go func() {
+				for {
+					c, err := li.Accept()
+					if err != nil && strings.Contains(err.Error(), "listener closed") {
+						return
+					}
+					if err == nil {
+						_ = c.(*netceptor.Conn).CloseConnection()
+					}
+					errs <- err
+				}
+			}()
+			return li, errs
+		}
+		// (iii) first, it takes a minute: a client that never opens a stream
+		netceptor.MaxIdleTimeoutForQuicConnections = 30 * time.Second // read when the listener is made
+		liSlow, _ := listen("slow")
+		netceptor.MaxIdleTimeoutForQuicConnections = idleTimeout
+		time.Sleep(200 * time.Millisecond)
+		baseSlow, _, _ := settle(nodes, 300*time.Millisecond, 3*time.Second)
+		tSlow := time.Now()
+		qcSlow, pcSlow, err := rawDial("slow", true)
+		if err != nil {
+			res.violate("raw QUIC dial failed: "+err.Error(), "dial-failed", nil)
+			break
+		}
+		time.Sleep(300 * time.Millisecond)
+		if n := buckets()[pending]; n != baseSlow[pending]+1 {
+			res.hist(fmt.Sprintf("scenario-raw:pending-goroutines=%d", n-baseSlow[pending]))
+		}
+		// (i) wrong first byte, data without marker, stream closed without a byte
+		li1, errs1 := listen("strict")
+		time.Sleep(200 * time.Millisecond)
+		base1, _, _ := settle(nodes, 300*time.Millisecond, 3*time.Second)
+		for k, first := range [][]byte{{1}, []byte("hello"), {}, {255, 0}} {
+			lg.step("raw client %d: stream starts with %x", k, first)
+			qc, pc, err := rawDial("strict", false)
+			if err != nil {
+				res.violate("raw QUIC dial failed: "+err.Error(), "dial-failed", nil)
+				continue
+			}
+			ctx, cancel := context.WithTimeout(context.Background(), 5*time.Second)
+			qs, err := qc.OpenStreamSync(ctx)
+			cancel()
+			if err == nil {
+				_, _ = qs.Write(first)
+				_ = qs.Close()
+			}
+			select {
+			case e := <-errs1:
+				if e == nil {
+					res.violate(fmt.Sprintf("a stream that starts with %x instead of the 0 marker was accepted", first), "marker-not-required", nil)
+				}
+			case <-time.After(5 * time.Second):
+				res.violate("Accept returned nothing for a stream with a wrong marker", "accept-missing", nil)
+			}
+			select {
+			case <-qc.Context().Done():
+			case <-time.After(5 * time.Second):
+				res.violate("the connection of a client with a wrong marker was not closed by the listener", "bad-marker-connection-kept", nil)
+			}
+			_ = qc.CloseWithError(0, "")
+			_ = pc.Close()
+			count(fmt.Sprintf("%s|bad-marker-%d", name, k), true)
+		}
+		now, regs, _ := settle(nodes, connQuiet(), 8*time.Second)
+		delete(now, pending) // the slow client's goroutine is judged below
+		b1 := map[string]int{}
+		for k, v := range base1 {
+			if k != pending {
+				b1[k] = v
+			}
+		}
+		if d := diffBuckets(b1, now); len(d) > 0 {
+			res.violate(fmt.Sprintf("after 4 clients with a wrong or missing marker: goroutines left behind: %v", d), "leak:goroutines:bad-marker", d)
+		}
+		if len(regs[0]) != 1 || regs[0][0] != pcSlow.LocalService() { // only the silent client's own socket
+			res.violate(fmt.Sprintf("after 4 raw clients the registry of alpha holds %v", regs[0]), "leak:unknown-service", nil)
+		}
+		// (ii) no stream until the listener is closed
+		lg.step("raw client connects, opens no stream; the listener is closed")
+		qc2, pc2, err := rawDial("strict", false)
+		if err == nil {
+			time.Sleep(300 * time.Millisecond)
+			doneC := make(chan struct{})
+			go func() { _ = li1.Close(); close(doneC) }()
+			select {
+			case <-doneC:
+			case <-time.After(5 * time.Second):
+				res.violate("Listener.Close() with a connection waiting for its stream did not return within 5s", "hang:listener-close", nil)
+			}
+			select {
+			case <-qc2.Context().Done():
+			case <-time.After(5 * time.Second):
+				res.violate("a connection that was waiting for its stream was not closed when the listener was closed", "pending-connection-kept", nil)
+			}
+			_ = pc2.Close()
+			count(name+"|listener-closed-while-pending", true)
+		}
+		// (iii) joined: 60 s after the connection was accepted the wait for a stream ends
+		lg.step("waiting for the 60 s accept timeout of the silent client")
+		select {
+		case <-qcSlow.Context().Done():
+		case <-time.After(time.Until(tSlow.Add(66 * time.Second))):
+			res.violate("a client that never opens a stream is still connected 66 s after it connected (the accept loop waits 60 s for a stream)", "accept-timeout-missing", nil)
+		}
+		waited := time.Since(tSlow)
+		cause := fmt.Sprint(context.Cause(qcSlow.Context()))
+		res.hist("scenario-raw:silent-client-closed-with:" + cause)
+		if waited < 55*time.Second {
+			res.violate(fmt.Sprintf("the silent client's connection ended after only %s: %s", waited.Round(time.Second), cause), "accept-timeout-early", nil)
+		}
+		_ = pcSlow.Close()
+		nowS, _, _ := settle(nodes, connQuiet(), 8*time.Second)
+		if nowS[pending] != baseSlow[pending] {
+			res.violate(fmt.Sprintf("%d goroutine(s) still wait for the stream of a connection that ended (accept timeout)", nowS[pending]-baseSlow[pending]), "leak:goroutines:accept-timeout", nil)
+		}
+		// the listener still works
+		_, ct := fastTLS()
+		ctx, cancel := context.WithTimeout(context.Background(), 5*time.Second)
+		c, err := a.DialContext(ctx, "beta", "slow", ct)
+		cancel()
+		if err != nil {
+			res.violate("after the accept timeout of another client a dial to the listener failed: "+err.Error(), "dial-failed", nil)
+		} else {
+			_ = c.CloseConnection()
+		}
+		doneS := make(chan struct{})
+		go func() { _ = liSlow.Close(); close(doneS) }()
+		select {
+		case <-doneS:
+		case <-time.After(5 * time.Second):
+			res.violate("Listener.Close() did not return within 5s", "hang:listener-close", nil)
+		}
+		count(name+"|accept-timeout", true)
 	case "shutdown-stops-all":
 		st, ct := fastTLS()
 		pc, _ := a.ListenPacket("one")
